@@ -102,6 +102,40 @@ def model_corr(ctx, stream, cap, argv, replay):
         if resp != exp:
             fails.append(fail('disagreement', 'pot_complement: code %s / model %s' % (exp[:300], resp[:300]),
                               {'stream': stream, 'stage': 'complement'}, replay))
+    for rec in cap.lattices:
+        if rec['base'] is None or len(rec['trcl']) > 1:
+            continue
+        import struct
+        resp = drv.ask('latmodel ' + lean.hx(C.lattice_request(rec)))
+        if resp.startswith('ok error'):
+            if rec['error'] is None:
+                fails.append(fail('disagreement', 'develop_lattice(cell %d): model %s, code creates %d cells'
+                                  % (rec['key'], resp, len(rec['elements'])), {'stream': stream, 'stage': 'lattice'}, replay))
+            continue
+        if not resp.startswith('ok') or rec['error'] is not None:
+            fails.append(fail('disagreement', 'develop_lattice(cell %d): model %s / code error %r'
+                              % (rec['key'], resp[:200], rec['error']), {'stream': stream, 'stage': 'lattice'}, replay))
+            continue
+        items = resp.split()[1:]
+        unb = lambda t: [struct.unpack('<d', struct.pack('<Q', int(x)))[0] for x in t.split(',')] if t else []  # noqa
+        bad = None
+        if len(items) != len(rec['elements']):
+            bad = 'model creates %d cells, code %d' % (len(items), len(rec['elements']))
+        else:
+            for it, el in zip(items, rec['elements']):
+                idx, tr, fl, ftr = it.split(':')
+                mt, mf = unb(tr), unb(ftr)
+                if (fl == '-') != (el['fill'] is None) or (fl != '-' and int(fl) != el['fill']):
+                    bad = 'element %s: fill model %s / code %r' % (idx, fl, el['fill'])
+                elif any(abs(a - b) > 1e-9 * max(1.0, abs(a)) for a, b in zip(mt, el['transl'])):
+                    bad = 'element %s: translation model %r / code %r' % (idx, mt, el['transl'])
+                elif len(mf) != len(el['filltr']) or any(abs(a - b) > 1e-9 * max(1.0, abs(a)) for a, b in zip(mf, el['filltr'])):
+                    bad = 'element %s: FILL transformation model %r / code %r' % (idx, mf, el['filltr'])
+                if bad:
+                    break
+        if bad:
+            fails.append(fail('disagreement', 'develop_lattice(cell %d): %s' % (rec['key'], bad),
+                              {'stream': stream, 'stage': 'lattice'}, replay))
     if cap.inline_in is not None and cap.inline_out is not None:
         resp = drv.ask('inline ' + lean.hx(C.inline_request(cap)))
         exp = 'ok ' + ' '.join('(cell %d %s)' % c for c in cap.inline_out)
